@@ -184,7 +184,7 @@ Proof.
     destruct (loadstate =? 2) eqn:E2.
     + assert (m ls <= q * T + r).
       { destruct (m ls <=? q * T + r) eqn:E; [apply Nat.leb_le in E; exact E|].
-        rewrite Hex in E2. destruct (q * T + r + 1 =? m ls); discriminate. }
+        rewrite Hex in E2. destruct (ld_final _); discriminate. }
       lia.
     + lia.
   - destruct (live S s =? 0).
@@ -227,7 +227,7 @@ Proof.
   exists (Phi S T (init S T sigma0 ls)). intros sched s Hrun.
   destruct sigma0 as [|x0 rest] eqn:E; [cbn in Hsig; lia|]. rewrite <- E in *.
   pose proof (phi_run S tr tr_event c ispadding T sigma0 ls x0 HT Hsig Hwf sched _ s
-                (ex_intro _ 0 (ex_intro _ 0 (inv_init S tr tr_event c ispadding T sigma0 ls x0 HT Hsig Hwf))) Hrun) as H.
+                (ex_intro _ 0 (ex_intro _ 0 (inv_init S tr tr_event c ispadding T sigma0 ls x0 HT Hsig))) Hrun) as H.
   lia.
 Qed.
 
@@ -253,7 +253,7 @@ Proof.
   rewrite <- (Phi_init S T sigma0 ls).
   destruct sigma0 as [|x0 rest] eqn:E; [cbn in Hsig; lia|]. rewrite <- E in *.
   pose proof (phi_run S tr tr_event c ispadding T sigma0 ls x0 HT Hsig Hwf sched _ s
-                (ex_intro _ 0 (ex_intro _ 0 (inv_init S tr tr_event c ispadding T sigma0 ls x0 HT Hsig Hwf))) Hrun) as H.
+                (ex_intro _ 0 (ex_intro _ 0 (inv_init S tr tr_event c ispadding T sigma0 ls x0 HT Hsig))) Hrun) as H.
   lia.
 Qed.
 Print Assumptions C04_bounded_steps_proof.
